@@ -248,6 +248,35 @@ func (s *rapidSpeller) ArraySize(kind string, n int) string    { return s.sizeFo
 type layoutSpec struct {
 	Seps     []string `json:"seps"`     // separator before token i (i >= 1), and a trailing one
 	Comments []string `json:"comments"` // comment text inserted at the line end inside separator i ("" = none)
+	// Inner[i], when non-empty, is the text of size token i re-spelled with blanks / line breaks inside its
+	// brackets (the lexer allows them there)
+	Inner []string `json:"inner,omitempty"`
+	// OpenEnd: the text ends right after the last comment, without the line break that normally follows it
+	OpenEnd bool `json:"open_end,omitempty"`
+}
+
+// respellSize inserts whitespace inside the brackets of a size token: after '[', around '..', before ']'.
+func respellSize(t *rapid.T, txt string) string {
+	ws := func() string {
+		return rapid.SampledFrom([]string{"", "", " ", "\n", "\t", "\r\n", " \n "}).Draw(t, "innerWS")
+	}
+	if len(txt) < 2 || txt[0] != '[' || txt[len(txt)-1] != ']' {
+		return txt
+	}
+	body := txt[1 : len(txt)-1]
+	if i := strings.Index(body, ".."); i >= 0 {
+		lo, hi := body[:i], body[i+2:]
+		out := "[" + ws() + lo
+		if lo != "" {
+			out += ws()
+		}
+		out += ".." + ws() + hi
+		if hi != "" {
+			out += ws()
+		}
+		return out + "]"
+	}
+	return "[" + ws() + body + ws() + "]"
 }
 
 var commentAlphabets = []string{
@@ -307,13 +336,24 @@ func needSpace(a, b model.Tok) bool {
 	return true
 }
 
-// genLayout draws a layout; strict forces a non-empty separator between all tokens
-// (used for invalid token sequences, where the role of a token depends on the lexer state).
-func genLayout(t *rapid.T, toks []model.Tok, comments bool, strict ...bool) layoutSpec {
+// genLayout draws a layout. opts[0] (strict) forces a non-empty separator between all tokens and leaves size
+// tokens as they are (used for invalid token sequences, where the role of a token depends on the lexer
+// state); opts[1] (openEnd) allows the text to end inside a final comment, without a line break.
+func genLayout(t *rapid.T, toks []model.Tok, comments bool, opts ...bool) layoutSpec {
+	strict := len(opts) > 0 && opts[0]
+	openEnd := len(opts) > 1 && opts[1]
 	var ls layoutSpec
+	for i, tk := range toks {
+		if tk.Kind == "size" && !strict && rapid.IntRange(0, 2).Draw(t, "respellSize") == 2 {
+			if ls.Inner == nil {
+				ls.Inner = make([]string, len(toks))
+			}
+			ls.Inner[i] = respellSize(t, tk.Text)
+		}
+	}
 	for i := 1; i <= len(toks); i++ {
 		var sep string
-		must := i < len(toks) && (needSpace(toks[i-1], toks[i]) || (len(strict) > 0 && strict[0]))
+		must := i < len(toks) && (needSpace(toks[i-1], toks[i]) || strict)
 		k := rapid.IntRange(0, 9).Draw(t, "sepKind")
 		switch {
 		case k <= 3:
@@ -351,6 +391,9 @@ func genLayout(t *rapid.T, toks []model.Tok, comments bool, strict ...bool) layo
 		ls.Seps = append(ls.Seps, sep)
 		ls.Comments = append(ls.Comments, cm)
 	}
+	if n := len(ls.Comments); openEnd && n > 0 && ls.Comments[n-1] != "" && rapid.Bool().Draw(t, "openEnd") {
+		ls.OpenEnd = true
+	}
 	return ls
 }
 
@@ -366,10 +409,19 @@ func render(toks []model.Tok, ls layoutSpec) (string, []int) {
 			writeSep(&sb, ls, i-1)
 		}
 		offs[i] = sb.Len()
-		sb.WriteString(tk.Text)
+		if i < len(ls.Inner) && ls.Inner[i] != "" {
+			sb.WriteString(ls.Inner[i])
+		} else {
+			sb.WriteString(tk.Text)
+		}
 	}
 	if len(ls.Seps) >= len(toks) && len(toks) > 0 {
-		writeSep(&sb, ls, len(toks)-1)
+		if ls.OpenEnd && ls.Comments[len(toks)-1] != "" {
+			sb.WriteString(" //")
+			sb.WriteString(strings.TrimRight(ls.Comments[len(toks)-1], " \t\r"))
+		} else {
+			writeSep(&sb, ls, len(toks)-1)
+		}
 	}
 	return sb.String(), offs
 }
